@@ -25,10 +25,7 @@ open XknxVerif.DPT
 abbrev ctx : Ctx := tableCtx
 
 /-- every enum class used by a JSON-kind row: `name.lower().upper()` finds the same member again, i.e. the
-name form (and every enum-valued dict field) parses back to the member it came from -/
-def enumNamesOK (t : EnumTable) : Bool :=
-  t.all fun (n, v) => enumParseName t (lowerName n) == some (n, v)
-
+name form (and every enum-valued dict field) parses back to the member it came from (`enumNamesOK`) -/
 theorem enum_names_ok : (Generated.table.filter fun r => isJsonFamily r.family).all
     (fun r => r.enums.all fun (_, t) => enumNamesOK t) = true := by decide +kernel
 
@@ -56,6 +53,29 @@ def dtChunk (k : Nat) : Bool := (List.range 16).all fun j => (List.range 4).all 
 
 /-- (2) PARTIAL for DPT 19 — the finding's domain: all 2^10 flag combinations (kernel evaluated) -/
 theorem datetime_flag_sweep : (List.range 16).all dtChunk = true := by decide +kernel
+
+/-- (3) DPT 19, every payload (all 2^64): the dict form of a decoded value is read back by `from_dict` as the very
+same value, hence `to_knx(as_dict(v))` = `to_knx(v)` — the statement the pinned tree violated (day_of_week None).
+This reduces C10 for DPT 19 to its C08 (which is correspondence-only). -/
+theorem datetime_from_dict_as_dict (r : Row) (hr : r ∈ Generated.table) (hf : r.family = .datetime)
+    (raw : List Nat) (fs : List (String × Atom)) (h : decDateTime r raw = .ok (.obj fs)) :
+    ∃ d, asForm r (.obj fs) = some (.dict d) ∧ fromDict r d = .ok fs ∧
+      encodeJson ctx r (.dict d) = complexErr (encodeObj ctx r fs) := by
+  have hm : r ∈ Generated.table.filter fun r => isJsonFamily r.family := by
+    rw [List.mem_filter]; exact ⟨hr, by simp [hf, isJsonFamily]⟩
+  have hall := List.all_eq_true.mp enum_names_ok r hm
+  have hok : enumNamesOK (r.enumTable "day_of_week") = true := by
+    unfold Row.enumTable
+    cases hfind : r.enums.find? (fun x => x.1 == "day_of_week") with
+    | none => simp [enumNamesOK]
+    | some pr =>
+      have := List.mem_of_find?_eq_some hfind
+      simpa using (List.all_eq_true.mp hall) pr this
+  obtain ⟨d, h1, h2⟩ := datetime_json_id r hf hok raw fs h
+  obtain ⟨d', h1', h3⟩ := datetime_encodeJson ctx r hf hok raw fs h
+  rw [h1] at h1'
+  injection h1' with h1'; injection h1' with h1'; subst h1'
+  exact ⟨d, h1, h2, h3⟩
 
 /-! Non-vacuity -/
 example : (Generated.table.filter fun r => rawLen r == 1 && isJsonFamily r.family).length = 46 := by decide +kernel
